@@ -76,3 +76,27 @@ package acr
 //@     invariant [node_keeps_exactly_the_states_shared_with_its_parent] forall k int :: {states[cur.id][k]} 0 <= k && k < len(stateIndices) ==> states[cur.id][k] == (k <= rangeindex ? (old(states[cur.id][k]) + old(states[prev.id][k]) > 1.0 ? 1.0 : 0.0) : old(states[cur.id][k]))
 //@     invariant [parent_untouched] forall k int :: {states[prev.id][k]} 0 <= k && k < len(stateIndices) ==> states[prev.id][k] == old(states[prev.id][k])
 //@     invariant [table_shape] rowsok(states, len(stateIndices)) && rowsapart(states)
+
+// ---------------------------------------------------------------------------
+// ACCTRAN (property C12): every child of a node keeps exactly the states it shares with that node; when it shares
+// none, its states are left as they are
+// ---------------------------------------------------------------------------
+
+//@ func acr.parsimonyACCTRAN
+//@   flag noframe
+//@   requires cur != nil && 0 <= cur.id && cur.id < len(states) && rowsok(states, len(stateIndices)) && rowsapart(states)
+//@   requires forall i int :: {cur.neigh[i]} 0 <= i && i < len(cur.neigh) ==> cur.neigh[i] != nil && 0 <= cur.neigh[i].id && cur.neigh[i].id < len(states) && cur.neigh[i].id != cur.id
+//@   loop 1
+//@     invariant [table_shape] rowsok(states, len(stateIndices)) && rowsapart(states) && cur != nil && 0 <= cur.id && cur.id < len(states)
+//@     invariant [neighbours_have_rows_of_their_own] forall i int :: {cur.neigh[i]} 0 <= i && i < len(cur.neigh) ==> cur.neigh[i] != nil && 0 <= cur.neigh[i].id && cur.neigh[i].id < len(states) && cur.neigh[i].id != cur.id
+//@   loop 2
+//@     invariant [child_states_copied_so_far] len(state) == len(stateIndices) && fresh_arr(state) && (forall k int :: {state[k]} 0 <= k && k < len(state) ==> state[k] == (k <= rangeindex ? lold(states[child.id][k]) : 0.0))
+//@     invariant [tables_untouched] rowsok(states, len(stateIndices)) && rowsapart(states) && (forall k int :: {states[child.id][k]} {states[cur.id][k]} 0 <= k && k < len(stateIndices) ==> states[child.id][k] == lold(states[child.id][k]) && states[cur.id][k] == lold(states[cur.id][k]))
+//@   loop 3
+//@     invariant [node_states_added_so_far] len(state) == len(stateIndices) && fresh_arr(state) && (forall k int :: {state[k]} 0 <= k && k < len(state) ==> state[k] == lold(states[child.id][k]) + (k <= rangeindex ? lold(states[cur.id][k]) : 0.0))
+//@     invariant [no_shared_state_seen_so_far_iff_flag] nullIntersection <==> (forall k int :: {state[k]} 0 <= k && k <= rangeindex ==> state[k] <= 1.0)
+//@     invariant [tables_untouched] rowsok(states, len(stateIndices)) && rowsapart(states) && (forall k int :: {states[child.id][k]} {states[cur.id][k]} 0 <= k && k < len(stateIndices) ==> states[child.id][k] == lold(states[child.id][k]) && states[cur.id][k] == lold(states[cur.id][k]))
+//@   loop 4
+//@     invariant [sums_kept] len(state) == len(stateIndices) && fresh_arr(state) && (forall k int :: {state[k]} 0 <= k && k < len(state) ==> state[k] == lold(state[k]) && state[k] == lold(states[child.id][k]) + lold(states[cur.id][k]))
+//@     invariant [child_keeps_exactly_the_states_shared_with_the_node] forall k int :: {states[child.id][k]} 0 <= k && k < len(stateIndices) ==> states[child.id][k] == (k <= rangeindex ? (lold(states[child.id][k]) + lold(states[cur.id][k]) > 1.0 ? 1.0 : 0.0) : lold(states[child.id][k]))
+//@     invariant [node_untouched] rowsok(states, len(stateIndices)) && rowsapart(states) && (forall k int :: {states[cur.id][k]} 0 <= k && k < len(stateIndices) ==> states[cur.id][k] == lold(states[cur.id][k]))
